@@ -300,7 +300,6 @@ pub struct CrashScenario;
 
 fn allowed_features() -> gen::problem::Features {
     let mut allowed = gen::problem::Features::all();
-    allowed.req_breaks = false;
     allowed.clustering = true;
     allowed.recharges = true;
     allowed.time_dependent = true;
@@ -458,6 +457,9 @@ impl CrashScenario {
         if base.matrices.iter().any(|m| m.get("timestamp").is_some()) {
             sig.push("time-dependent");
         }
+        if crate::scen::w1::has_required_break(&base.problem) {
+            sig.push("required-break");
+        }
         if base.problem["plan"].get("relations").is_some() {
             sig.push("relations");
         }
@@ -474,6 +476,9 @@ impl CrashScenario {
                 }
                 if flagged {
                     s = if s.is_empty() { "flagged-leg-in-solution".into() } else { format!("{s}|flagged-leg-in-solution") };
+                }
+                if rule == "panic" && msg.contains("ComponentRange") && msg.contains("timestamp") {
+                    s = if s.is_empty() { "timestamp-out-of-range".into() } else { format!("{s}|timestamp-out-of-range") };
                 }
                 rec.issues.push(IssueRec { prop, rule, sig: s, msg });
             }
